@@ -2,7 +2,7 @@ from . import COMMON_TB, NOTE
 
 PROP = {
     "modules": ["Proofs.C05"],
-    "streams": [{"name": "scan"}, {"name": "val", "shards": 2}],
+    "streams": [{"name": "scan"}, {"name": "val", "shards": 2}, {"name": "verbatim"}],
     "rule": "scan: every string of length<=5 (quick) / 6 (thorough) over {{ }} % - \" space newline a, harvested test "
             "templates and their mutants, random bytes / UTF-8 / delimiter-dense sources up to 64 KiB; a case is "
             "non-trivial when it yields more than one token; distinct by case line",
